@@ -21,6 +21,7 @@ class Algebra:
     """exact resolution of square roots over the ring of the harness (see module docstring)"""
     def __init__(s, eng, ring, positive):
         s.eng, s.R, s.cands, s.roots, s.positive, s.used = eng, ring, [], {}, set(positive), []
+        s.known, s.lemmas, s.pair_cache, s.root_polys = {}, [], {}, {}
     def add_candidate(s, term, why): s.cands.append((poly.rat_from_z3(s.R, term), why))
     def sqrt_poly(s, N):
         if N.is_zero(): return poly.RatFunc(s.R.const(0))
@@ -31,10 +32,41 @@ class Algebra:
             if c > 0 and isqrt(c.numerator) ** 2 == c.numerator and isqrt(c.denominator) ** 2 == c.denominator: return poly.RatFunc(s.R.const(Fraction(isqrt(c.numerator), isqrt(c.denominator))))
         m = poly.sqrt_monomial(N, s.positive)
         if m is not None: return poly.RatFunc(m)
+        # M * r^2 for a root symbol r already introduced (the ring rewrites r^2 to its radicand, so squares of roots show up expanded)
+        for rsym, Nr in s.root_polys.items():
+            q0m, q0c = next(iter(sorted(Nr.t.items())))
+            for n0m, n0c in list(N.t.items())[:40]:
+                dn, dq = dict(n0m), dict(q0m); ok = True; mm = {}
+                for vn in set(dn) | set(dq):
+                    e_ = dn.get(vn, 0) - dq.get(vn, 0)
+                    if e_ < 0: ok = False; break
+                    if e_: mm[vn] = e_
+                if not ok: continue
+                M = poly.Poly(s.R, {tuple(sorted(mm.items())): n0c / q0c})
+                rM = poly.sqrt_monomial(M, s.positive)
+                if rM is not None and (M * Nr - N).is_zero(): return poly.RatFunc(rM * s.R.var(rsym))
         for c, why in s.cands:
-            if c.d.is_const() and (c.n * c.n - N.scale(c.d.t[()] ** 2)).is_zero():
+            if not c.d.is_const(): continue
+            P = c.n.scale(1 / c.d.t[()]); Q = P * P
+            if Q.is_zero(): continue
+            if (Q - N).is_zero():
                 if why not in s.used: s.used.append(why)
-                return c
+                return poly.RatFunc(P)
+            # N = M * P^2 for a monomial M that is itself a square of positive quantities?
+            q0m, q0c = next(iter(sorted(Q.t.items())))
+            for n0m, n0c in list(N.t.items())[:80]:
+                dn, dq = dict(n0m), dict(q0m); ok = True; mm = {}
+                for vn in set(dn) | set(dq):
+                    e_ = dn.get(vn, 0) - dq.get(vn, 0)
+                    if e_ < 0: ok = False; break
+                    if e_: mm[vn] = e_
+                if not ok: continue
+                M = poly.Poly(s.R, {tuple(sorted(mm.items())): n0c / q0c})
+                rM = poly.sqrt_monomial(M, s.positive)
+                if rM is None: continue
+                if (M * Q - N).is_zero():
+                    if why not in s.used: s.used.append(why)
+                    return poly.RatFunc(rM * P)
         return None
     def sqrt(s, x):
         try: rf = poly.rat_from_z3(s.R, x)
@@ -46,10 +78,23 @@ class Algebra:
             return s.symbol(rf.n) / rd.to_z3()
         if not rf.d.is_const(): return None
         return s.symbol(rf.n.scale(1 / rf.d.t[()]))
+    def simplify_pair(s, t, sv, cv):
+        """lemma step: if (sin, cos) of an angle term are EXACTLY (normal form zero) those of a known angle of the generating configuration, continue with
+        the short form; every such replacement is a discharged lemma and is logged"""
+        key = z3.simplify(t).sexpr()
+        if key in s.pair_cache: return s.pair_cache[key]
+        out = (sv, cv)
+        try:
+            rs, rc = poly.rat_from_z3(s.R, sv), poly.rat_from_z3(s.R, cv)
+            for name, (ks, kc) in s.known.items():
+                if (rs - ks).is_zero() and (rc - kc).is_zero():
+                    out = (ks.to_z3(), kc.to_z3()); s.lemmas.append(f'(sin,cos)({str(z3.simplify(t))[:60]}) == (sin,cos)({name})'); break
+        except poly.NotPolynomial: pass
+        s.pair_cache[key] = out; return out
     def symbol(s, N):
         key = repr(sorted(N.t.items()))
         if key not in s.roots:
-            r = fresh('root'); s.roots[key] = r; s.R.square(r, N); s.R.vars[r.decl().name()] = r; s.positive.add(r.decl().name())
+            r = fresh('root'); s.roots[key] = r; s.R.square(r, N); s.root_polys[r] = N; s.R.vars[r.decl().name()] = r; s.positive.add(r.decl().name())
             s.eng.side += [r >= 0, r * r == N.to_z3()]; s.eng.side_lin.append(r >= 0)
         return s.roots[key]
 
@@ -77,6 +122,9 @@ def run_class(ck, shoulder, elbow, wrist):
     alg.add_candidate(cx1 if shoulder > 0 else -cx1, f'shoulder: cx1 {">" if shoulder > 0 else "<"} 0')
     alg.add_candidate((2 * pv['c2'] * S3k) if elbow > 0 else -(2 * pv['c2'] * S3k), f'elbow: sin(q3+psi) {">" if elbow > 0 else "<"} 0 (and c2 > 0)')
     alg.add_candidate(s5 if wrist > 0 else -s5, f'wrist: sin q5 {">" if wrist > 0 else "<"} 0')
+    C23 = c2c * c3c - s2 * s3
+    for nm, (ks, kc) in dict(q1=sc[0], q2=sc[1], q3=sc[2], q4=sc[3], q5=sc[4], q6=sc[5]).items(): alg.known[nm] = (poly.rat_from_z3(R, ks), poly.rat_from_z3(R, kc))
+    alg.known['q2+q3'] = (poly.rat_from_z3(R, S23), poly.rat_from_z3(R, C23))
     rec = dict(forward=[], angle_to=[], norm=[]); ik.install_pose_oracles(eng2, rec)
     fn = opw_fn(eng2, 'inverse_intern'); eng2.capture.add(fn.name)
     res = eng2.call_body(st, fn, [rr, eng2.tmp_ref(st, 0, pose)])
@@ -87,26 +135,28 @@ def run_class(ck, shoulder, elbow, wrist):
     case = lambda m=None: dict(clause='completeness', shoulder=shoulder, elbow=elbow, wrist=wrist)
     matches = []
     detail = {}
-    for b in range(8):
+    expected = (0 if shoulder > 0 else 2) + (0 if elbow > 0 else 1) + (0 if wrist > 0 else 4)      # the branch whose square-root signs are those of this class
+    for b in (expected,):
         resid = []
         for jn in range(6):
             try:
                 sv, cv = eng2.trig.sincos(theta.items[b].items[jn].v)
                 ds = poly.rat_from_z3(R, sv - sc[jn][0]); dc = poly.rat_from_z3(R, cv - sc[jn][1])
                 resid.append((ds.n.nterms(), dc.n.nterms()))
+                if 0 < ds.n.nterms() <= 40 and os.environ.get('C02_DEBUG'): print('RESID sin theta', jn + 1, ds.n, '/', ds.d)
             except poly.NotPolynomial as e:
                 resid.append((-1, -1))
         detail[b] = resid
         if all(r == (0, 0) for r in resid): matches.append(b)
-    ck.notes.append(label + f'residual term counts per branch (sin, cos per joint): {detail}; class assumptions used for roots: {alg.used}')
+    ck.notes.append(label + f'residual term counts per branch (sin, cos per joint): {detail}; class assumptions used for roots: {alg.used}; lemmas discharged on the way: {alg.lemmas}')
     # the obligation proper: some branch reproduces the generating configuration — sent to the solver joint by joint for the best branch
-    best = matches[0] if matches else min(range(8), key=lambda b: sum(max(x, 0) + max(y, 0) for x, y in detail[b]) + 1000 * sum(1 for x, y in detail[b] if x < 0))
+    best = expected
     for jn in range(6):
         sv, cv = eng2.trig.sincos(theta.items[best].items[jn].v)
         for nm, val, ref in (('sin', sv, sc[jn][0]), ('cos', cv, sc[jn][1])):
             try:
                 d = poly.rat_from_z3(R, val - ref)
-                ck.decide(label + f'branch {best}: {nm}(theta{jn + 1}) == {nm}(q{jn + 1}) [numerator normalised, residual terms={d.n.nterms()}]', eng2, [], d.n.to_z3() != 0, case, nomodel_case=case)
+                ck.decide(label + f'branch {best}: {nm}(theta{jn + 1}) == {nm}(q{jn + 1}) [numerator normalised, residual terms={d.n.nterms()}]', eng2, [], d.n.to_z3() != 0, case, nomodel_case=case, abstract=True)
             except poly.NotPolynomial as e:
                 ck.decide(label + f'branch {best}: {nm}(theta{jn + 1}) == {nm}(q{jn + 1}) [not rational: {e}]', eng2, [], z3.BoolVal(True), case, nomodel_case=case)
     ck.decide(label + 'a branch reproduces the generating configuration', eng2, [], z3.BoolVal(not matches), case, nomodel_case=case)
@@ -144,10 +194,12 @@ def closure(ck):
 def run(ck):
     ck.bounds = dict(parameters='all reals with c2 > 0, a2^2 + c3^2 > 0, non-zero reach radii (cleared denominators)', classes='8 sign classes of (cx1, sin(q3+psi), sin q5); margins: strictly non-zero', signs='identity pattern (sign/offset round trip is C03/C01)')
     ck.assumptions += ['exact real arithmetic in the function field of the configuration', 'class assumptions fix the sign of the three square roots that select a branch', 'forward(answer) == pose and hence acceptance follow from equality of (sin, cos) of every joint (C03: forward depends on joints only through them)']
-    closure(ck)
     classes = list(itertools.product((1, -1), repeat=3))
-    if ck.tier == 'quick': classes = [(1, 1, 1), (1, -1, -1), (-1, 1, 1)]
-    for sh, el, wr in classes: run_class(ck, sh, el, wr)
+    if ck.tier == 'quick': classes = [(1, 1, 1), (1, -1, -1), (-1, 1, 1), (-1, -1, 1)]
+    mirdump.load(REPO); ensure_replay()
+    ck.parallel([('checks.c02', 'closure', ())] + [('checks.c02', 'run_class_job', cl) for cl in classes])
+
+def run_class_job(ck, sh, el, wr): run_class(ck, sh, el, wr)
 
 if __name__ == '__main__':
     main(run, 'C02')
